@@ -19,7 +19,9 @@ inductive VReach (prog : List (List String)) : VSt → Prop
     lookup of a hit under the read lock; the get-or-create under the write lock after a miss (where
     the key is looked up AGAIN); the remove / reset under the write lock (a remove may look the key up
     under the read lock first: an absent key commits there, a present one at the write lock, where it
-    is looked up AGAIN - `remove_precheck_accepted`); a collect's key set at its
+    is looked up AGAIN - `remove_precheck_accepted`; a reset may check under the read lock first whether
+    the map is empty: an empty map commits there, a non-empty one at the write lock, where whatever the
+    map holds then is cleared - `reset_precheck_accepted`); a collect's key set at its
     read lock and each child value at its load; an update through a handle at its fetch_add — so the
     order is consistent with real time. -/
 theorem vec_linearizable {prog : List (List String)} {s : VSt} (h : VReach prog s) :
@@ -205,6 +207,98 @@ theorem remove_precheck_accepted :
         VSpec.lookup, VSpec.apply]
     obtain ⟨s, hr, h1⟩ := h
     exact ⟨s, hr, reach hr, h1⟩
+
+/-! ### the pre-checked reset: a read-locked emptiness check before the write-locked clear -/
+
+/-- **reset_at_read_lock_keeps_content** — whatever a `reset` does at a READ lock (the first event of
+    the call is "R"), the vector's content is the same afterwards: either the map was empty and the
+    committed `.reset` left it as it was (`reset_empty`), or nothing was committed. A read-locked
+    section of `reset` never clears anything. -/
+theorem reset_at_read_lock_keeps_content {s s' : VSt} {e : Ev} {th : Th VPc} {op : String}
+    (hth : s.ths[e.tid]? = some th) (hpc : th.pc = some (.start op)) (hn : opName op = "reset")
+    (hk : e.k = "R") (h : vStep s e = .ok s') : s'.spec = s.spec := by
+  have hw : ("reset" == "with") = false := by decide +kernel
+  have hc : ("reset" == "collect") = false := by decide +kernel
+  have hr : ("reset" == "rm") = false := by decide +kernel
+  unfold vStep at h
+  simp only [hth, hpc, hn, hk, hw, hc, hr, beq_self_eq_true, Bool.false_and, Bool.and_self, Bool.false_eq_true,
+    if_false, if_true] at h
+  rw [guard_ok] at h; obtain ⟨_, h⟩ := h
+  rw [guard_ok] at h; obtain ⟨_, h⟩ := h
+  split at h
+  · next hem => cases h; simp only [vEff, reset_empty _ hem]
+  · cases h; rfl
+
+/-- **reset_precheck_accepted** — the machine accepts a `reset` that first checks under the READ lock
+    whether the map is empty (besides the unchanged form that takes the write lock at once, as in
+    `subcallTrace` / `rmGapTrace`), and both outcomes of that check are reachable:
+    (1) `resetEmptyTrace`: the map is empty; the call commits `.reset` with result `.unit` at its read
+        lock - by `reset_empty` this leaves the content as it is -, completes at the read unlock and
+        returns ""; the whole run contains no write lock; the program is finished (`allDone`), the lock
+        is free, the log is that one entry;
+    (2) `resetNonEmptyTrace`: the map is not empty; after the read-locked section (the first 9 items)
+        NOTHING has been committed for the reset (the log is the `with`'s get-or-create alone, the key
+        is still there) and the thread expects the write lock (`rmNeedW`); the write-locked section
+        then commits `.reset`, the call returns "", the map is empty;
+    (3) `resetGapTrace`: as (2), but another thread's `with:b` creates a second child between the
+        read-locked check and the write-locked section: the reset commits AFTER that get-or-create and
+        clears whatever the map holds then - both keys;
+    (4) `resetSkippedTrace` is REJECTED: a reset that returns after its read-locked check although the map
+        was not empty has not completed its steps - the return mark (item 9) is refused with exactly
+        this message.
+    The end states of (1)-(3) are `VReach`able, so `vec_linearizable`, `keys_distinct`,
+    `vec_real_time_order` … apply to them. -/
+theorem reset_precheck_accepted :
+    (∃ s, runItems vItem (vInit [["reset"]]) resetEmptyTrace 0 = .ok s ∧ VReach [["reset"]] s ∧
+      allDone s.ths = true ∧ s.lin = [⟨0, 0, .reset, .unit⟩] ∧ s.spec.map = [] ∧
+      s.lockW = none ∧ s.lockR = []) ∧
+    (∃ s1 s, runItems vItem (vInit [["with:a", "reset"]]) (resetNonEmptyTrace.take 9) 0 = .ok s1 ∧
+      s1.lin = [⟨0, 0, .getOrCreate "a", .child 0⟩] ∧ s1.spec.map = [("a", 0)] ∧
+      s1.ths.map (·.pc) = [some (.rmNeedW "reset")] ∧ s1.lockW = none ∧ s1.lockR = [] ∧
+      runItems vItem (vInit [["with:a", "reset"]]) resetNonEmptyTrace 0 = .ok s ∧ VReach [["with:a", "reset"]] s ∧
+      allDone s.ths = true ∧
+      s.lin = [⟨0, 0, .getOrCreate "a", .child 0⟩, ⟨0, 1, .reset, .unit⟩] ∧ s.spec.map = [] ∧
+      s.lockW = none ∧ s.lockR = []) ∧
+    (∃ s, runItems vItem (vInit [["with:a", "reset"], ["with:b"]]) resetGapTrace 0 = .ok s ∧
+      VReach [["with:a", "reset"], ["with:b"]] s ∧ allDone s.ths = true ∧
+      s.lin = [⟨0, 0, .getOrCreate "a", .child 0⟩, ⟨1, 0, .getOrCreate "b", .child 1⟩, ⟨0, 1, .reset, .unit⟩] ∧
+      s.spec.map = [] ∧ s.lockW = none ∧ s.lockR = []) ∧
+    runItems vItem (vInit [["with:a", "reset"]]) resetSkippedTrace 0 =
+      .error "diverge@9: return before the call's steps are complete (op reset)" := by
+  have r0 : Nat.repr 0 = "0" := by decide +kernel
+  have r1 : Nat.repr 1 = "1" := by decide +kernel
+  have reach : ∀ {prog tr s}, runItems vItem (vInit prog) tr 0 = .ok s → VReach prog s :=
+    fun hr => vReach_iff_vRun.2 (runItems_vRun hr)
+  refine ⟨?_, ?_, ?_, ?_⟩
+  · have h : ∃ s, runItems vItem (vInit [["reset"]]) resetEmptyTrace 0 = .ok s ∧
+        allDone s.ths = true ∧ s.lin = [⟨0, 0, .reset, .unit⟩] ∧ s.spec.map = [] ∧
+        s.lockW = none ∧ s.lockR = [] := by
+      simp [runItems, resetEmptyTrace, vInit, vItem, vStep, vEff, Conc.guard, openCall, closeCall, allDone, r0,
+        opName_reset, endsWith_0, VSpec.apply]
+    obtain ⟨s, hr, h1⟩ := h
+    exact ⟨s, hr, reach hr, h1⟩
+  · have h : ∃ s1 s, runItems vItem (vInit [["with:a", "reset"]]) (resetNonEmptyTrace.take 9) 0 = .ok s1 ∧
+        s1.lin = [⟨0, 0, .getOrCreate "a", .child 0⟩] ∧ s1.spec.map = [("a", 0)] ∧
+        s1.ths.map (·.pc) = [some (.rmNeedW "reset")] ∧ s1.lockW = none ∧ s1.lockR = [] ∧
+        runItems vItem (vInit [["with:a", "reset"]]) resetNonEmptyTrace 0 = .ok s ∧
+        allDone s.ths = true ∧
+        s.lin = [⟨0, 0, .getOrCreate "a", .child 0⟩, ⟨0, 1, .reset, .unit⟩] ∧ s.spec.map = [] ∧
+        s.lockW = none ∧ s.lockR = [] := by
+      simp [runItems, resetNonEmptyTrace, vInit, vItem, vStep, vEff, setHandle, Conc.guard, openCall, closeCall, allDone,
+        r0, r1, opName_with_a, opArg_with_a, opName_reset, endsWith_0, endsWith_1, VSpec.lookup, VSpec.apply]
+    obtain ⟨s1, s, h1, h2, h3, h4, h5, h6, hr, h7⟩ := h
+    exact ⟨s1, s, h1, h2, h3, h4, h5, h6, hr, reach hr, h7⟩
+  · have h : ∃ s, runItems vItem (vInit [["with:a", "reset"], ["with:b"]]) resetGapTrace 0 = .ok s ∧
+        allDone s.ths = true ∧
+        s.lin = [⟨0, 0, .getOrCreate "a", .child 0⟩, ⟨1, 0, .getOrCreate "b", .child 1⟩, ⟨0, 1, .reset, .unit⟩] ∧
+        s.spec.map = [] ∧ s.lockW = none ∧ s.lockR = [] := by
+      simp [runItems, resetGapTrace, vInit, vItem, vStep, vEff, setHandle, Conc.guard, openCall, closeCall, allDone,
+        r0, r1, opName_with_a, opArg_with_a, opName_with_b, opArg_with_b, opName_reset, endsWith_0, endsWith_1,
+        VSpec.lookup, VSpec.apply]
+    exact (let ⟨s, hr, h1⟩ := h; ⟨s, hr, reach hr, h1⟩)
+  · simp [runItems, resetSkippedTrace, vInit, vItem, vStep, vEff, setHandle, Conc.guard, openCall, closeCall,
+      r0, r1, opName_with_a, opArg_with_a, opName_reset, endsWith_0, endsWith_1, VSpec.lookup, VSpec.apply]
+    decide +kernel
 
 /-! ### consequences of the sequential specification (what "behaves like a map" means) -/
 
